@@ -1,6 +1,6 @@
 //! Path exploration by re-execution with a decision prefix.
 use crate::eng;
-use bls12_381::symex::{self as sx, Decision, DrawMode};
+use bls12_381::symex::{self as sx, DrawMode};
 
 pub struct PathInfo {
     pub index: usize,
@@ -16,14 +16,14 @@ pub struct Stats {
 }
 
 /// Runs `body` once per path. `body` must execute the code under test; the arena is reset before each
-/// call with the path's prefix.  After `body` returns, every decision past the prefix that `flip`
-/// accepts is scheduled for flipping, as long as the path has used fewer than `d` flips.
+/// call with the path's prefix.  After `body` returns, every decision past the prefix whose label is
+/// in `flip_labels` (all decisions if empty) is scheduled for flipping, as long as the path has used fewer than `d` flips.
 pub fn explore(
     mode: DrawMode,
     seed: u64,
     d: usize,
     max_paths: usize,
-    mut flip: impl FnMut(usize, &Decision) -> bool,
+    flip_labels: &[&str],
     mut body: impl FnMut(&PathInfo),
 ) -> Stats {
     let mut work: Vec<(Vec<bool>, Vec<usize>)> = vec![(vec![], vec![])];
@@ -47,7 +47,8 @@ pub fn explore(
         let ds = sx::snapshot_decisions();
         if flips.len() < d {
             for i in (plen..ds.len()).rev() {
-                if flip(i, &ds[i]) {
+                let lname = sx::label_name(ds[i].label);
+                if flip_labels.is_empty() || flip_labels.iter().any(|l| *l == lname) {
                     let mut p: Vec<bool> = ds[..i].iter().map(|x| x.outcome).collect();
                     p.push(!ds[i].outcome);
                     let mut f = flips.clone();
